@@ -130,12 +130,12 @@ def warmup(tier: str) -> None:
 
 
 # --------------------------------------------------------------------------- running the real code
-def _make_map(cfg):
+def _make_map(cfg, cm=None):
     from hiten.algorithms.poincare.centermanifold.config import CenterManifoldMapConfig
     from hiten.algorithms.types.configs import IntegrationConfig
     from hiten.system.maps.center import CenterManifoldMap
     env = ENVS[cfg["env"]]
-    pm = CenterManifoldMap(env["cm"], cfg["h0"])
+    pm = CenterManifoldMap(cm if cm is not None else env["cm"], cfg["h0"])
     sec = cfg["section"]
     cfg_sec = sec if cfg["cfg_section_consistent"] else "q3"
     axis = None
@@ -159,10 +159,41 @@ def _options(cfg, n_workers):
                                     integration=IntegrationOptions(dt=cfg["dt"], order=cfg["order"], max_steps=cfg["max_steps"]))
 
 
-def _compute(cfg, n_workers):
+def _compute(cfg, n_workers, pm=None):
     STRAT.np.seed = cfg["rng_seed"]
-    pm = _make_map(cfg)
+    pm = pm or _make_map(cfg)
     return pm.compute(section_coord=cfg["section"], options=_options(cfg, n_workers))
+
+
+def _primed_map(cfg, prime):
+    """A map object with a HISTORY: it has already computed another section, or its manifold had another degree.
+    The map the property talks about must not depend on that history."""
+    if prime == "none":
+        return None
+    env = ENVS[cfg["env"]]
+    small = dict(cfg, n_iter=1, n_seeds=min(cfg["n_seeds"], 3), max_steps=min(cfg["max_steps"], 600))
+    if prime == "section":
+        pm = _make_map(cfg)
+        other = {"q3": "q2", "q2": "q3", "p3": "p2", "p2": "p3"}[cfg["section"]]
+        STRAT.np.seed = cfg["rng_seed"]
+        try:
+            pm.compute(section_coord=other, options=_options(small, 1))
+        except Exception:
+            pass
+        return pm
+    # degree: a private manifold that starts at another degree, computes a map, then switches to the run's degree
+    from hiten.system.center import CenterManifold
+    deg = int(env["cm"].degree)
+    cm = CenterManifold(env["cm"].point, deg - 1 if deg > 3 else deg + 1)
+    cfg2 = dict(cfg)
+    pm = _make_map(cfg2, cm=cm)
+    STRAT.np.seed = cfg["rng_seed"]
+    try:
+        pm.compute(section_coord=cfg["section"], options=_options(small, 1))
+    except Exception:
+        pass
+    cm.degree = deg
+    return pm
 
 
 def _rows(res):
@@ -313,8 +344,9 @@ def execute(ctx: RunCtx) -> None:
     cfg = draw_config(ds, len(ENVS), quick=(ctx.tier == "quick"))
     fault_cfg = ds.flag("cfg.fault_configuration", 0.15)
     use_psim = ds.flag("cfg.prange_sim_kernel", 0.5)
-    log.add("cfg", {k: (fhex(v) if isinstance(v, float) else v) for k, v in cfg.items()}, fault_cfg, use_psim)
-    ctx.sample = {"config": dict(cfg, env=ENVS[cfg["env"]]["name"]), "fault_configuration": fault_cfg, "prange_sim_kernel": use_psim}
+    prime = ds.pick(["none", "section", "degree"], "cfg.map_history", (0.6, 0.2, 0.2))
+    log.add("cfg", {k: (fhex(v) if isinstance(v, float) else v) for k, v in cfg.items()}, fault_cfg, use_psim, prime)
+    ctx.sample = {"config": dict(cfg, env=ENVS[cfg["env"]]["name"]), "fault_configuration": fault_cfg, "prange_sim_kernel": use_psim, "map_history": prime}
     what = f"map {ENVS[cfg['env']]['name']} {cfg}"
     # ---- reference: unmodified code, one worker
     try:
@@ -375,6 +407,9 @@ def execute(ctx: RunCtx) -> None:
         baton.yield_point("backend.run:after")
         return resp
 
+    primed = _primed_map(cfg, prime)   # built with the unmodified code, before the seams are rebound
+    if prime != "none":
+        ctx.probe("map_history_" + prime)
     ENG.ThreadPoolExecutor, ENG.as_completed = Pool, as_completed
     CMB._CenterManifoldBackend.run = run_proxy
     if use_psim:
@@ -382,7 +417,7 @@ def execute(ctx: RunCtx) -> None:
     INTF.os.cpu_count = lambda: 1 + ds.choose(32, "os.cpu_count")
     sim = None
     try:
-        sim = _compute(cfg, n_workers=cfg["n_workers"])
+        sim = _compute(cfg, n_workers=cfg["n_workers"], pm=primed)
     except Violation:
         raise
     except HarnessHang:
@@ -399,7 +434,7 @@ def execute(ctx: RunCtx) -> None:
     ctx.steps += baton.yields
     picks = "".join(n[1:] + "." for n in baton.pick_trace)
     log.add("sched", policy, n_tasks, baton.yields, baton.picks, baton.switches, hashlib.sha256(picks.encode()).hexdigest()[:16])
-    ctx.sig_parts = [cfg, fault_cfg, use_psim, picks, (nT, ppart, ppol)]
+    ctx.sig_parts = [cfg, fault_cfg, use_psim, prime, picks, (nT, ppart, ppol)]
     ctx.nontrivial = (n_tasks >= 2 and baton.switches >= 1) or bool(ctx.faults)
     ctx.sample["schedule"] = {"policy": policy, "tasks": n_tasks, "yield_points": baton.yields, "picks": baton.picks, "switches": baton.switches,
                               "backend_calls": calls["n"]}
